@@ -87,41 +87,56 @@ def reach_v(body, starts, env0=None, stop=(), forced=None, hits=None, fvals=None
             if 'dst' not in st: continue
             d = st['dst']; dl = d['l']
             if d['p']:
-                e.pop(dl, None); continue
+                e.pop(dl, None); e.pop(('p', dl), None); continue
             rv = st['rv']; k = rv['k']; o = rv['ops'][0] if rv.get('ops') else None
-            val = None
+            val = None; pay = None          # pay: the variant held by the PAYLOAD of dl (nested sum types: Ok(None), Ok(Some(x)), Continue(None) ..)
             if k == 'agg':
                 val = _variant_of(rv['adt'])
+                if val is not None and len(rv['ops']) == 1 and rv['ops'][0]['k'] in ('copy', 'move') and not rv['ops'][0]['pl']['p']:
+                    pv = e.get(rv['ops'][0]['pl']['l'])
+                    if isinstance(pv, str): pay = pv
             elif k == 'use' and o['k'] == 'const':
                 if o['v'] in ('true', 'false') and body.locals[dl] == 'bool': val = (o['v'] == 'true')
             elif k == 'use' and o['k'] in ('copy', 'move') and not o['pl']['p']:
-                val = e.get(o['pl']['l'])
+                val = e.get(o['pl']['l']); pay = e.get(('p', o['pl']['l']))
+            elif k == 'use' and o['k'] in ('copy', 'move') and len(o['pl']['p']) == 2 and isinstance(o['pl']['p'][0], dict) and 'dc' in o['pl']['p'][0] \
+                    and isinstance(o['pl']['p'][1], dict) and o['pl']['p'][1].get('f') == '0':
+                # `(x as Variant).0`: the payload of x, whose variant may be known
+                pv = e.get(('p', o['pl']['l']))
+                if isinstance(pv, str): val = pv
             elif k == 'un' and rv['op'] == 'Not' and o['k'] in ('copy', 'move') and not o['pl']['p']:
                 v0 = e.get(o['pl']['l'])
                 if isinstance(v0, bool): val = not v0
             elif k == 'ref' and not rv.get('mut') and not rv['pl']['p']:
                 val = e.get(rv['pl']['l'])               # a shared reference to a value of known variant (`opt.is_some()`, `match &res`)
                 if not isinstance(val, str): val = None
+                else: pay = e.get(('p', rv['pl']['l']))
             elif k == 'discr' and rv['pl']['p'] in ([], ['*']):
                 v0 = e.get(rv['pl']['l'])
                 if isinstance(v0, str): val = ('discr', V_DISCR[v0])
-            if fvals and (bi, dl) in fvals: val = fvals[(bi, dl)]
-            if val is None or dl in mb: e.pop(dl, None)
-            else: e[dl] = val
+            if fvals and (bi, dl) in fvals: val = fvals[(bi, dl)]; pay = None
+            if val is None or dl in mb: e.pop(dl, None); e.pop(('p', dl), None)
+            else:
+                e[dl] = val
+                if isinstance(pay, str): e[('p', dl)] = pay
+                else: e.pop(('p', dl), None)
         t = blk['term']; succs = body.succ(bi)
         if t['k'] == 'call':
-            d = t['dst']; dl = d['l']; nm = t['r'] or t['f']; val = None
+            d = t['dst']; dl = d['l']; nm = t['r'] or t['f']; val = None; pay = None
             a0 = t['args'][0] if t['args'] else None
             v0 = e.get(a0['pl']['l']) if a0 and a0['k'] in ('copy', 'move') and not a0['pl']['p'] else None
             if not d['p']:
                 if 'FromResidual' in nm and nm.endswith('from_residual'):
                     val = _err_variant_of_type(body.locals[dl], nm)
                 elif T.TRY_BRANCH.search(nm):
-                    if isinstance(v0, str): val = V_BRANCH.get(v0)
+                    if isinstance(v0, str):
+                        val = V_BRANCH.get(v0)
+                        if val == 'ControlFlow::Continue': pay = e.get(('p', a0['pl']['l']))      # `?` hands the success payload on
                 elif T.NOT_CALL.search(nm):
                     if isinstance(v0, bool): val = not v0
                 elif any(rx.search(nm) for rx, _ in V_CTOR):
                     val = [v for rx, v in V_CTOR if rx.search(nm)][0]
+                    if isinstance(v0, str): pay = v0
                 elif isinstance(v0, str):
                     for rx, m in V_ADAPT:
                         if rx.search(T.strip_generics_tail(nm)) or rx.search(nm):
@@ -130,9 +145,12 @@ def reach_v(body, starts, env0=None, stop=(), forced=None, hits=None, fvals=None
                     for rx, m in V_RECODE:
                         if rx.search(T.strip_generics_tail(nm)) or rx.search(nm):
                             val = m.get(v0); break
-                if fvals and (bi, dl) in fvals: val = fvals[(bi, dl)]
-            if val is None or dl in mb: e.pop(dl, None)
-            else: e[dl] = val
+                if fvals and (bi, dl) in fvals: val = fvals[(bi, dl)]; pay = None
+            if val is None or dl in mb: e.pop(dl, None); e.pop(('p', dl), None)
+            else:
+                e[dl] = val
+                if isinstance(pay, str): e[('p', dl)] = pay
+                else: e.pop(('p', dl), None)
         elif t['k'] == 'switch' and t['d']['k'] != 'const' and not t['d']['pl']['p']:
             v0 = e.get(t['d']['pl']['l'])
             m = {val: tg for val, tg in t['ts']}
@@ -1090,11 +1108,12 @@ def plain_source(body, o, depth=8):
 OKISH = ('Ok', 'Some', 'Continue')
 
 
-def value_web(body, start_local, start_stack, is_increment, max_nodes=4000):
+def value_web(body, start_local, start_stack, is_increment, max_nodes=4000, origins=None):
     """Where does a scalar come from, following pure CARRIES backwards through every definition: copies, references, tuples and
     success variants built and taken apart again (`(a, b)` .. `.1`, `Ok(x)` .. `as Ok.0`, Try::branch, anyhow::Ok(..)), loop state
     threaded through a fold accumulator, writes through `&mut` captures — and through accumulating additions `x = x' + inc` whose
-    increment satisfies is_increment (followed on the other operand).  Returns (consts, add sites, other origins)."""
+    increment satisfies is_increment (followed on the other operand).  Returns (consts, add sites, other origins); the locals whose
+    definition is not a carry (the value is computed there) are appended to `origins` when given."""
     norm = lambda p: [('f', q['f']) if 'f' in q else ('dc', q['dc']) for q in p if isinstance(q, dict) and ('f' in q or 'dc' in q)]
     consts = set(); adds = set(); others = []
     seen = set(); work = [(start_local, tuple(start_stack))]
@@ -1132,7 +1151,9 @@ def value_web(body, start_local, start_stack, is_increment, max_nodes=4000):
                 if any(rx.search(nm) for rx, v in V_CTOR if v != 'Result::Err') and st_[:2] and st_[0][0] == 'dc' and st_[0][1] in OKISH + ('OKISH',) and a0 is not None:
                     push(a0, st_[2:]); continue
                 if T.TRANSPARENT.search(T.strip_generics_tail(nm)) and a0 is not None and not st_: push(a0, st_); continue
-                others.append('call ' + (d.get('ri') or {}).get('item', '?')); continue
+                others.append('call ' + (d.get('ri') or {}).get('item', '?'))
+                if origins is not None and not st_: origins.append(l)
+                continue
             rv = d['rv']; kk = rv['k']
             if kk == 'use': push(rv['ops'][0], st_)
             elif kk == 'ref': push({'k': 'copy', 'pl': rv['pl']}, st_)
@@ -1150,9 +1171,13 @@ def value_web(body, start_local, start_stack, is_increment, max_nodes=4000):
                 ia, ib = is_increment(a), is_increment(b)
                 if ia != ib:
                     adds.add(bi); push(b if ia else a, [])
-                else: others.append('Add of two %s operands' % ('increment' if ia else 'non-increment'))
-            elif kk == 'cast': push(rv['ops'][0], st_)
-            else: others.append(kk + (' ' + rv.get('op', '') if kk in ('bin', 'un') else ''))
+                else:
+                    others.append('Add of two %s operands' % ('increment' if ia else 'non-increment'))
+                    if origins is not None: origins.append(l)
+            elif kk == 'cast' and origins is None: push(rv['ops'][0], st_)
+            else:
+                others.append(kk + (' ' + rv.get('op', '') if kk in ('bin', 'un') else ''))
+                if origins is not None and not st_: origins.append(l)
     return consts, adds, others
 
 
